@@ -270,7 +270,7 @@ def run_l2_after_refusal(ctx):
 def run(ctx):
     run_l2_after_refusal(ctx)
     rng = ctx.rng("lines")
-    n = ctx.pick(36000, 1000000) // ctx.nshards
+    n = ctx.pick(36000, 5000000) // ctx.nshards
     fixed_incomplete = [b"gemini://example.org/\n", b"gemini://example.org/\r", b"gemini://example.org/", b"gemini://example.org/\n\n", b"titan://example.org/x;size=1\nA",
                         b"gemini://example.org/a\nb", b"\n", b"gemini://example.org/\r \n"]
     if ctx.shard == 0:
